@@ -33,6 +33,7 @@ var worldFiles = map[string][]byte{
 	"bad":     []byte(contentBad),
 	"pa.jq":   []byte(".a\n"),
 	"pbad.jq": []byte("("),
+	"pfmt.jq": []byte("@json\n"),
 	"optf":    []byte("string"),
 }
 var worldDirs = []string{"dir", "inc"}
@@ -95,10 +96,13 @@ const (
 	progPartial = `.a|if type=="number" then .+1 else error("E") end`
 	progErr     = "error"
 	progBad     = "("
+	// a format string as first token: the program text starts with a character (@) that means
+	// "read the value from a file" in option values
+	progFmt = "@json"
 	progState   = `((try .a catch 0)|if type=="array" then error("E") else empty end),[(_input_io_errors//{}|keys),(_input_decode_errors//{}|keys),(_cli_last_expr_error!=null),_input_filenames]`
 )
 
-var progNames = map[string]string{progDot: "dot", progA: "a", progPartial: "partial", progErr: "error", progBad: "nocompile", progState: "state"}
+var progNames = map[string]string{progDot: "dot", progA: "a", progPartial: "partial", progErr: "error", progBad: "nocompile", progState: "state", progFmt: "format"}
 
 func progName(p string) string {
 	if n, ok := progNames[p]; ok {
@@ -117,13 +121,13 @@ var reVar = regexp.MustCompile(`^\$([a-zA-Z_][a-zA-Z0-9_]*)$`)
 
 // words of the harness that are certainly not defined jq functions
 var undefinedIdents = map[string]bool{"g1": true, "g2": true, "bad": true, "missing": true, "dir": true,
-	"nofile": true, "nope": true, "inc": true, "optf": true, "pa.jq": true, "pbad.jq": true, "nofile.jq": true,
+	"nofile": true, "nope": true, "inc": true, "optf": true, "pa.jq": true, "pbad.jq": true, "pfmt.jq": true, "nofile.jq": true,
 	"va": true, "vj": true, "vr": true, "vd": true, "k": true}
 
 // compiles: 1 yes, 0 no, -1 unknown to the model
 func compiles(p string, vars map[string]any) int {
 	switch p {
-	case progDot, progA, progPartial, progErr, progState, ".a\n":
+	case progDot, progA, progPartial, progErr, progState, ".a\n", progFmt, progFmt + "\n":
 		return 1
 	case progBad:
 		return 0
@@ -201,6 +205,8 @@ func evalProg(p string, v any, vars map[string]any, st *modelState) (outs []any,
 		return nil, &jerr{val: "E"}
 	case progErr:
 		return nil, &jerr{val: v}
+	case progFmt, progFmt + "\n":
+		return []any{fmtJSON(v, true, "")}, nil
 	case progState:
 		a, e := getA(v)
 		if e != nil {
